@@ -9,6 +9,7 @@
 From Coq Require Import List NArith ZArith Bool.
 From TarsV Require Import Gen.Consts Select.Failover Select.FailoverProofs Select.FailoverInv Select.FailoverThms
   Select.FailoverExamples Select.FailoverQueue.
+From TarsV Require Xlate.CheckActiveEquiv.
 Import ListNotations.
 Open Scope Z_scope.
 
